@@ -20,9 +20,15 @@ def evaluate(e, env):
         def gen(i, env2):
             if i == len(e.generators): out.append(evaluate(e.elt, env2)); return
             g = e.generators[i]
-            if not isinstance(g.target, ast.Name): raise Unsupported("comprehension target")
+            def bind(tg, v, env3):
+                if isinstance(tg, ast.Name): env3[tg.id] = v
+                elif isinstance(tg, (ast.Tuple, ast.List)):
+                    v = list(v)
+                    if len(v) != len(tg.elts): raise Unsupported("comprehension unpacking arity")
+                    for t_, x_ in zip(tg.elts, v): bind(t_, x_, env3)
+                else: raise Unsupported("comprehension target")
             for v in evaluate(g.iter, env2):
-                env3 = dict(env2); env3[g.target.id] = v
+                env3 = dict(env2); bind(g.target, v, env3)
                 if all(evaluate(c, env3) for c in g.ifs): gen(i + 1, env3)
         gen(0, env); return out
     if isinstance(e, ast.Name):
